@@ -351,24 +351,42 @@ class FSInterposer:
                     cut = {"0": 0, "1": min(1, n), "half": n // 2, "allbut1": max(n - 1, 0)}[cls]
                     self._fh.write(data[:cut])
                     self._fh.flush()
+                    self._die()
 
-                return fs._event(f"write#{k}", self._path, lambda: self._fh.write(data), torn=torn)
+                try:
+                    return fs._event(f"write#{k}", self._path, lambda: self._fh.write(data), torn=torn)
+                except Crash:
+                    self._die()
+                    raise
+
+            def _die(self):
+                """process death: the OS closes the descriptor, Python's user-space write buffer is LOST (nothing is flushed)"""
+                try:
+                    raw = getattr(self._fh, "raw", None)
+                    if raw is not None and not raw.closed:
+                        raw.close()
+                    try:
+                        self._fh.close()
+                    except Exception:
+                        pass
+                except Exception:
+                    pass
 
             def close(self):
                 if self._fh.closed:
                     return None
                 try:
                     return fs._event("close", self._path, self._fh.close)
-                finally:
-                    if not self._fh.closed:
-                        self._fh.close()  # a crashed process still has its descriptors closed by the OS (data written so far stays)
+                except Crash:
+                    self._die()
+                    raise
 
             def __enter__(self):
                 return self
 
             def __exit__(self, et, ev, tb):
                 if et is not None and issubclass(et, Crash):
-                    self._fh.close()
+                    self._die()
                     return False
                 self.close()
                 return False
